@@ -56,10 +56,11 @@ CFG = {
         "unwind": 4,
         "functions": [
             "Interval::signed_intersect, compute_intersection_residue_class, extended_gcd, adjust_to_stride_and_remainder (abstract_domain/interval/simple_interval.rs)",
-            "IntervalDomain::add_not_equal_bound without hints (abstract_domain/interval.rs)",
         ],
-        "bounds": "all pairs of well-formed 1-byte strided intervals with strides <= 15 (quick) / <= 255 (thorough) and all members; recursion/loop unwinding 16 (extended Euclid on operands < 256 needs <= 13 steps), unwinding assertions on. "
-                  "The signed/unsigned <=, >= refinements are decided by the result-validation part of this check",
+        "bounds": "1-byte strided intervals: start, end and the member are fully symbolic, the stride PAIR is concrete per call (with concrete strides the extended Euclid, gcd and lcm are constants for the solver). "
+                  "quick: the pairs (8,10), (6,4), (5,3), (7,0 = singleton); thorough: all 169 pairs with strides 0..=12 (26 half-row harnesses), plus two harnesses with fully symbolic strides <= 15 / <= 3 "
+                  "that are marked stretch (attempted; a time-out is recorded as undecided). Recursion/loop unwinding 16 (extended Euclid on operands <= 15 needs <= 7 steps), unwinding assertions on. "
+                  "The signed/unsigned <=, >=, != refinements of IntervalDomain/DataDomain and intersections at 2..16 bytes are decided by the result-validation part of this check",
         "oracle": "membership recomputed from start/end/stride on native integers (src/c02.rs: ref_contains)",
     },
     "C19": {
@@ -89,7 +90,7 @@ COMMON_ASSUMPTIONS = [
 def harness_names(module):
     src = open(os.path.join(VERIF, "engines", "kani", "src", module + ".rs")).read()
     blk = src[src.rindex("crate::harnesses!"):]
-    return [(n, bool(q)) for q, n in re.findall(r"^\s*(@quick\s+)?(\w+)\s*\[\d+\]\s*=>", blk, re.M)]
+    return [(n, q.strip().lstrip("@") or None) for q, n in re.findall(r"^\s*(@quick\s+|@stretch\s+)?(\w+)\s*\[\d+\]\s*=>", blk, re.M)]
 
 
 RV_PROPS = {"C02", "C03", "C04"}
@@ -106,10 +107,13 @@ def run(prop, tier):
         write_evidence(prop, tier, "proof", cov, COMMON_ASSUMPTIONS, time.time() - t0, len(v))
         return finish(prop, v, inc)
     names = harness_names(cfg["module"])
+    stretch = set()
     if tier == "quick":
-        names = [n for n, q in names if q]
+        names = [n for n, q in names if q == "quick"]
         features = [cfg["module"]]
     else:
+        # @stretch: attempted in the thorough tier; a time-out there is recorded as undecided (outside the claim), not as a failure of the run
+        stretch = {"%s::%s" % (cfg["module"], n) for n, q in names if q == "stretch"}
         names = [n for n, q in names]
         features = [cfg["module"], "thorough"]
     full = ["%s::%s" % (cfg["module"], n) for n in names]
@@ -145,6 +149,7 @@ def run(prop, tier):
     open(os.path.join(VERIF, ".build", "logs", "%s_%s.log" % (prop, tier)), "w").write(out)
 
     violations, inconclusive, samples = [], [], []
+    undecided_stretch = []
     confirmed_labels, not_replayed, n_playbacks = set(), [], 0
     MAX_PLAYBACKS = int(os.environ.get("VERIF_MAX_PLAYBACKS", "3"))
     discharged = 0
@@ -169,6 +174,9 @@ def run(prop, tier):
                 inconclusive.append("%s: vacuity witness not reachable (cover %s)" % (h, cov))
             else:
                 discharged += 1
+        elif r.get("why") in ("timeout", "oom") and h in stretch:
+            entry["note"] = "stretch harness: %s under the per-harness cap of %ds -- undecided, outside the claim of this run" % (r["why"], per_harness)
+            undecided_stretch.append(h)
         elif r.get("why") in ("timeout", "oom"):
             inconclusive.append("%s: %s under the per-harness cap of %ds" % (h, r["why"], per_harness))
         else:
@@ -227,6 +235,7 @@ def run(prop, tier):
         "queries_discharged": total_checks,
         "solver_s": round(solver_s, 1),
         "inconclusive": inconclusive,
+        "undecided_stretch_harnesses": undecided_stretch,
         "samples": samples,
         "explanation": "each obligation is one #[kani::proof] harness over kani::any() inputs; discharged = VERIFICATION SUCCESSFUL with unwinding assertions on and every kani::cover witness satisfied",
     }
